@@ -25,7 +25,7 @@ QKeep(h, j, x) == QStride = 1 \/ (h + 7 * j + 13 * x) % QStride = QPhase % QStri
 
 XEmitCase(cs, h) ==
   /\ \A j \in BallSess(cs) : \A x \in 1..Len(cs.inp.ks) :
-        QKeep(h, j, x) => PrintT("CASE " \o ToJson(Query(cs, j, "knn", cs.inp.ks[x], -1)))
+        (QKeep(h, j, x) /\ cs.inp.ks[x] >= 0) => PrintT("CASE " \o ToJson(Query(cs, j, "knn", cs.inp.ks[x], -1)))
   /\ \A j \in BallSess(cs) : \A x \in 1..Len(cs.inp.r8s) :
         QKeep(h, j, 50 + x) => PrintT("CASE " \o ToJson(Query(cs, j, "range", -1, cs.inp.r8s[x])))
 
